@@ -226,7 +226,10 @@ func c15AvailCase(t *rapid.T, odsSizes []int) {
 		opts = append(opts, WithArchivalMode())
 	}
 	fa := NewShareAvailability(st, getter, opts...)
-	fa.storageWindow = window
+	if window != availability.StorageWindow {
+		// the default window is left as the constructor sets it (a node never overrides it afterwards)
+		fa.storageWindow = window
+	}
 
 	stored := map[uint64]bool{}    // model: height present
 	storedQ4 := map[uint64]bool{}  // model: stored together with the parity quadrant
